@@ -41,7 +41,23 @@ def run(c):
             key = (p["entry"], tuple(p["inp"][:k]))
             if key not in seen:
                 seen.add(key); cases.append(dict(k="dec", entry=p["entry"], inp=p["inp"][:k]))
-    # encode dispatch
+    # object reuse: a second decode into the SAME nas.Message must again leave exactly one body (the second input's)
+    routed = [p for p in pts if p["routed"] and p["entry"] == "plain"]
+    rng = c.rng
+    # (same family only: a nas.Message has one pointer per family, and what a decoder should do with the OTHER family's
+    #  stale pointer is not stated by the property - no verdict is taken on cross-family reuse)
+    byfam = {}
+    for p in routed: byfam.setdefault(p["inp"][0], []).append(p)
+    for _ in range(400 if not thorough else 4000):
+        fam = rng.choice(sorted(byfam))
+        a, b = rng.choice(byfam[fam]), rng.choice(byfam[fam])
+        cases.append(dict(k="dec2", entry="plain", inp=a["inp"], inp2=b["inp"]))
+    for p in rng.sample(routed, min(len(routed), 60)):
+        cases.append(dict(k="dec2", entry="plain", inp=p["inp"], inp2=[p["inp"][0]]))          # then a too-short input
+    # encode dispatch: the never-dispatched envelope body populated next to known / unknown types
+    envv = minimal_value("SecurityProtected5GSNASMessage")
+    for mt in [0, 1, 255, 0x41, 0x5D, 0x7E] + [t["msgtype"] for t in TABLES if t["family"] == "GMM"][:6]:
+        cases.append(dict(k="encdisp", fam="gmm", mt=mt, m="SecurityProtected5GSNASMessage", mand=envv["mand"], opt=envv["opt"]))
     for t in TABLES:
         if t["family"] == "ENV": continue
         mv = minimal_value(t["name"])
